@@ -35,7 +35,7 @@ CHECKS.update({
    "Every swap transition within the depth bound splits exactly as stated (per-step fee, protocol cut, growth; trader debit/credit; Traded event); every collect_protocol_fees pays exactly what is owed and resets it; fee / protocol rates varied inside the search.",
    SVM + " Hook H2 is trusted to record the values the swap loop used.", "DESIGN.md §3 C06"),
  "C08": (A, "model_checking",
-   "function level: bounded-exhaustive enumeration vs exact rational oracle (Anchor and Pinocchio); handler level: explicit-state search, every increase/decrease judged from real balances and re-executed with caller bounds realised-1/0/+1; by-token-amounts in every state",
+   "function level: bounded-exhaustive enumeration vs exact rational oracle (Anchor and Pinocchio), liquidity magnitudes incl. the u64 boundary of each amount and the 2^128 / 2^192 / 2^193 boundaries of liquidity x price width; handler level: explicit-state search, every increase/decrease judged from real balances and re-executed with caller bounds realised-1/0/+1; by-token-amounts in every state",
    "Function-level: deposit=ceil, withdrawal=floor of the exact amounts, one-sidedness, add-then-remove loss <= 1, estimate is the largest fitting liquidity, Anchor==Pinocchio over boundary cross products and a complete small box. Handler-level: every liquidity transition within the depth bound moves exactly those amounts, reports them, and token_max/token_min flip exactly at the realised amounts; increase_liquidity_by_token_amounts_v2 adds the largest fitting liquidity.",
    SVM + " Prices and liquidities are alphabet points plus a complete small box (not all of u128).", "DESIGN.md §3 C08"),
  "C12": (A, "model_checking",
